@@ -306,7 +306,7 @@ fn cmd_run(args: &[String]) {
                 triomphe_verif_rt::harness_error("two executions of one seed produced different traces");
             }
         }
-        if fault_enum && p.fault.is_none() {
+        if fault_enum && p.fault.is_empty() {
             // crash-point enumeration: a panic at each k-th invocation of each callback class
             for cb in 0..shapes::NCB {
                 let calls = r.cb_calls[cb];
@@ -315,7 +315,7 @@ fn cmd_run(args: &[String]) {
                 }
                 for k in 1..=(calls + 1) {
                     let mut q = p.clone();
-                    q.fault = Some((unsafe { std::mem::transmute::<u8, shapes::Cb>(cb as u8) }, k));
+                    q.fault = vec![(unsafe { std::mem::transmute::<u8, shapes::Cb>(cb as u8) }, k)];
                     let rq = one(&q, &mut agg, &mut par_hashes);
                     runs += 1;
                     fault_points += 1;
